@@ -105,6 +105,10 @@ def spaces(tier, seed):
                                               "aware": AWARE, "tzenv": ["UTC"]}),
         Product("pairs-representative", {"A": REP, "B": REP, "w": [1, 2, 4, 6, 9, 11], "form": FORMS, "aware": [None, True],
                                          "tzenv": ["UTC"]}),
+        Product("other-tz-database-names-as-TIMEZONE", {"A": sorted(set(pytz.all_timezones) - set(pytz.common_timezones)),
+                                                       "B": [None, "UTC"], "w": range(len(LOCALS)), "form": [f for f in FORMS if f != "absolute+zone"],
+                                                       "aware": AWARE, "tzenv": ["UTC"]},
+                note="(forms in which TIMEZONE is the source zone) deprecated/alias tz-database names incl. those that are also library abbreviations (CET, EET, MET, WET, EST5EDT, Etc/GMT+N): TIMEZONE resolves through the tz database first"),
         Product("local-process-zone", {"tzenv": TZENVS, "A": ["local", None], "B": [None, "UTC", "Asia/Tokyo", "America/New_York"],
                                        "w": range(len(LOCALS)), "form": FORMS, "aware": AWARE}),
     ]
